@@ -13,6 +13,7 @@ import (
 	"io"
 	"io/fs"
 	realos "os"
+	"runtime"
 	"sort"
 	"strings"
 	"sync"
@@ -107,11 +108,34 @@ var d = newDisk()
 // the duration depends on the path the two snapshot writers, which are woken by
 // tickers with one interval, never act at the same virtual instant. Reads and
 // writes do not sleep: the snapshot writers hold a store lock while writing.
-var Latency func(kind, path string) time.Duration
+var Latency func(kind, path, caller string) time.Duration
+
+// callerPkg names the package of the first caller outside simfs (the two snapshot
+// writers are told apart by it even if they were to use one file name).
+func callerPkg() string {
+	var pcs [12]uintptr
+	n := runtime.Callers(3, pcs[:])
+	fr := runtime.CallersFrames(pcs[:n])
+	for {
+		f, more := fr.Next()
+		if f.Function != "" && !strings.Contains(f.Function, "sim/simfs.") {
+			fn := f.Function
+			if i := strings.LastIndexByte(fn, '/'); i >= 0 {
+				if j := strings.IndexByte(fn[i:], '.'); j >= 0 {
+					return fn[:i+j]
+				}
+			}
+			return fn
+		}
+		if !more {
+			return ""
+		}
+	}
+}
 
 func lag(kind, path string) {
 	if f := Latency; f != nil {
-		if dl := f(kind, path); dl > 0 {
+		if dl := f(kind, path, callerPkg()); dl > 0 {
 			time.Sleep(dl)
 		}
 	}
